@@ -30,7 +30,16 @@ fn lerp(a: Coord<f64>, b: Coord<f64>, t: f64) -> Coord<f64> {
 pub fn gen(rng: &mut Rng, _index: u64) -> String {
     let k = *rng.pick(&[2i64, 3, 4, 5]);
     let (p1, p2, q1, q2);
-    match rng.below(11) {
+    match rng.below(12) {
+        11 => {
+            let (a, b, pt) = crate::shapes::ulp_beyond_end(rng);
+            // the point as a zero-length segment, first or second operand, or as the end of a proper collinear segment
+            match rng.below(3) {
+                0 => { p1 = pt; p2 = pt; q1 = a; q2 = b; }
+                1 => { p1 = a; p2 = b; q1 = pt; q2 = pt; }
+                _ => { p1 = a; p2 = b; q1 = pt; q2 = Coord { x: pt.x + (pt.x - a.x), y: pt.y + (pt.y - a.y) }; }
+            }
+        }
         10 => {
             // decimal (non-dyadic) coordinates, segments sharing an end point in every arrangement (V, chain, T):
             // exactness of any centre / extent arithmetic is lost here, the predicates must not depend on it
